@@ -71,13 +71,18 @@ theorem InvP_setSame {P : Params} {s t : St} {i : Nat} {e e' : Entry} (h : InvP 
 macro "psame" hi:ident : tactic =>
   `(tactic| exact InvP_setSame (by assumption) $hi rfl rfl rfl rfl rfl id rfl rfl rfl rfl rfl)
 
-theorem InvP_wTop {P : Params} {s s' : St} {i : Nat} (h : InvP P s) (hs : wTop s i = some s') : InvP P s' := by
+theorem InvP_wTop {P : Params} {s s' : St} {i o0 : Nat} (h : InvP P s) (hs : wTop P s i o0 = some s') : InvP P s' := by
   unfold wTop at hs
   split at hs; · cases hs
   rename_i e hi
   split at hs; · cases hs
   split at hs
-  · split at hs <;> cases hs <;> psame hi
+  · split at hs
+    · cases hs; psame hi
+    · cases hs; psame hi
+    · cases hs; psame hi
+    · split at hs <;> cases hs
+      psame hi
   · cases hs
 
 theorem InvP_wEnc {P : Params} {s s' : St} {i : Nat} {full : Bool} {newOut : Nat} (h : InvP P s)
@@ -418,7 +423,7 @@ theorem InvP_step {P : Params} {s s' : St} {e : Ev} (h : InvP P s) (hA : InvA P 
       · exact InvP_init P _ _
       · exact InvP_init P _ .out
     · cases hs
-  | wTop i => exact InvP_wTop h hs
+  | wTop i o0 => exact InvP_wTop h hs
   | wEnc i full newOut => exact InvP_wEnc h hs
   | wEncErr i r => exact InvP_wEncErr hs
   | wFb i => exact InvP_wFb h hs
